@@ -219,7 +219,9 @@ def generic_probe(val, origin, with_origin):
             expect = GR.build(normalized(val, origin, "full"))
         elif with_origin:
             rd2 = dns.rdata.from_text(val.rdclass, val.rdtype, t, o, True)
-            expect = GR.build(normalized(val, origin, "norm"))
+            # (the generic form is decoded from its octets; TSIG's wire decoder is origin-blind, like its text parser: the
+            # algorithm name stays absolute even when it happens to lie under the origin)
+            expect = rd if val.tname == "TSIG" else GR.build(normalized(val, origin, "norm"))
         else:
             rd2 = dns.rdata.from_text(val.rdclass, val.rdtype, t, None, True)
             expect = GR.build(normalized(val, origin, "full")) if origin else rd
